@@ -135,15 +135,15 @@ FlushLoop(st, free, moved, movedp) ==
 
 (* UserRx::flush: returns the bytes handed over.  The dispatcher asks to be woken by the next read
    when even after handing over everything less than one payload of room would be left.  A reader
-   that waits is woken when bytes were handed over.
-   NOTE (deviation, reported): when the only thing handed over is the end-of-stream marker
-   (0 bytes) a waiting reader is NOT woken; it learns of the end of stream at the latest when the
-   connection is marked closed (MarkClosed always wakes).  Modelled as implemented. *)
+   that waits is woken when anything was handed over, the 0-byte end-of-stream marker included
+   (C02 "blocked readers/writers are always woken when their condition changes"; the pinned code
+   woke only for bytes - repaired in /repo by "fix: wake a waiting reader when end-of-stream
+   becomes readable"). *)
 Flush(st) ==
     LET free0 == Max(0, st.cap - st.ub)
         want  == Max(0, free0 - FrontBytes(st)) < st.maxp
         r     == FlushLoop(st, free0, 0, 0)
-        wake  == st.rwait /\ r.moved > 0
+        wake  == st.rwait /\ r.movedp > 0
         st1   == [r.st EXCEPT !.wbase = r.free, !.dreg = @ \/ want, !.rwait = @ /\ ~wake]
     IN  [Outcome(st1, "ok", r.moved, 0) EXCEPT !.rwake = wake]
 
@@ -316,10 +316,9 @@ UserQueueBounded(st) == st.ub <= st.cap \/ st.over
    byte has been read or is still held, in order, on the reader's side *)
 NoDiscard(st) == st.cbytes = st.rbytes + CurRest(st) + st.ub + FrontBytes(st)
 
-(* no lost wake-up: a reader that waits has nothing to get -- except for the end-of-stream marker
-   (see Flush), which waits for MarkClosed at the latest *)
+(* no lost wake-up: a reader that waits has nothing to get *)
 NoLostWakeup(st) ==
-    st.rwait /\ ~st.rdrop => (Avail(st) = 0 /\ NextMarker(st) \in {"empty", "eof"}) \/ st.eof
+    st.rwait /\ ~st.rdrop => (Avail(st) = 0 /\ NextMarker(st) = "empty") \/ st.eof
 
 StateInv(st) ==
     /\ Wellformed(st) /\ ChainInOrder(st) /\ WindowHonest(st) /\ NeverOverflows(st)
